@@ -61,6 +61,38 @@ def run(ctx):
         else:
             R.violation('a', 'R2', 'create_certificate: the "no certificate yet" return persists nothing', 'create_certificate:none-persists', str(bad), f.loc())
 
+        # the crash window (certificate stored, open message not yet flagged) must stay re-sealable: the only thing that makes
+        # create_certificate refuse with AlreadyCertified is the flag of the open message itself (seed C15-5: a look-up of the latest
+        # stored certificate refused too, and the interrupted round could never be completed after the restart)
+        ERR = 'mithril_aggregator::services::certifier::interface::CertifierServiceError'
+        inst_r = 'create_certificate: AlreadyCertified is raised only when the open message is flagged certified'
+        refusals = [(g, rv, ln) for g, rv, ln in ctx.closure_aggs(f, ERR, depth=3) if rv[4] == 'AlreadyCertified']
+        unguarded = []
+        for g, rv, ln in refusals:
+            gb = g.body
+            flag_locals = set()
+            for b in gb.blocks:
+                if b.cleanup:
+                    continue
+                for (_, pl, rv2) in b.stmts:
+                    for (l, place) in __import__('core').rvalue_reads(rv2):
+                        for pe in place[1]:
+                            if isinstance(pe, tuple) and pe[0] == 'f' and pe[2] == 'is_certified' and pe[3] and 'OpenMessage' in pe[3] and not pl[1]:
+                                flag_locals.add(pl[0])
+            edges = set()
+            for l in flag_locals:
+                edges |= track_result(gb, l, +1, 'bool').success_edges
+            sites_b = {bi for bi, b in enumerate(gb.blocks) if not b.cleanup and any(rv2 is rv for (_, pl, rv2) in b.stmts)}
+            if not edges or (sites_b & gb.reach([0], removed=edges)):
+                unguarded.append('%s line %s' % (fn_short(g.name), ln))
+        if not refusals:
+            R.ok('a', 'R6', inst_r, 'no AlreadyCertified refusal under create_certificate', f.loc())
+        elif unguarded:
+            R.violation('a', 'R6', inst_r, 'create_certificate:refusal', 'AlreadyCertified can be raised although open_message.is_certified is false: %s - a certificate stored '
+                        'just before a stop (flag not yet written) can then never be sealed again' % unguarded, f.loc())
+        else:
+            R.ok('a', 'R6', inst_r, '%d refusal site(s), all under the flag' % len(refusals), f.loc())
+
     # ---- (b)
     t = ctx.try_fn('b', TASK)
     if t is not None:
